@@ -16,23 +16,34 @@ from .values import B, I, fresh_name
 
 class Q:
     """kind 'all' | 'ex'; roles: tuple of role names (one per bound variable);
-    body: fn(*terms) -> z3 Bool (quantifier free)"""
-    __slots__ = ('kind', 'roles', 'body', 'name')
+    body: fn(*terms) -> z3 Bool (quantifier free).  The body is evaluated ONCE, eagerly, on
+    placeholder variables (so that it cannot observe later mutations of the symbolic state);
+    instances are obtained by substitution."""
+    __slots__ = ('kind', 'roles', 'vars', 'expr', 'name')
 
-    def __init__(self, kind, roles, body, name=''):
+    def __init__(self, kind, roles, body, name='', _vars=None, _expr=None):
         self.kind = kind
         self.roles = tuple(roles)
-        self.body = body
         self.name = name
+        if _vars is not None:
+            self.vars, self.expr = _vars, _expr
+        else:
+            self.vars = [z3.Int(fresh_name('qv_' + r)) for r in self.roles]
+            e = body(*self.vars)
+            if isinstance(e, bool):
+                e = z3.BoolVal(e)
+            self.expr = e
+
+    def body(self, *terms):
+        return z3.substitute(self.expr, *[(v, t) for v, t in zip(self.vars, terms)])
 
     def z3(self):
-        vs = [z3.Int(fresh_name('qv')) for _ in self.roles]
-        b = self.body(*vs)
-        return z3.ForAll(vs, b) if self.kind == 'all' else z3.Exists(vs, b)
+        return z3.ForAll(self.vars, self.expr) if self.kind == 'all' \
+            else z3.Exists(self.vars, self.expr)
 
     def negated(self):
-        return Q('ex' if self.kind == 'all' else 'all', self.roles,
-                 lambda *t: z3.Not(self.body(*t)), 'not-' + self.name)
+        return Q('ex' if self.kind == 'all' else 'all', self.roles, None, 'not-' + self.name,
+                 _vars=self.vars, _expr=z3.Not(self.expr))
 
 
 def All(roles, body, name=''):
@@ -177,9 +188,8 @@ def nnf(f, positive, env):
                 env.seeds.setdefault(r, []).append(cst)
             return q.body(*cs)
         sel = z3.Bool(fresh_name('sel'))
-        env.schemas.append(Q('all', q.roles,
-                             (lambda qq, ss: (lambda *t: z3.Implies(ss, qq.body(*t))))(q, sel),
-                             q.name))
+        env.schemas.append(Q('all', q.roles, None, q.name, _vars=q.vars,
+                             _expr=z3.Implies(sel, q.expr)))
         return sel
     if f[0] == 'not':
         return nnf(f[1], not positive, env)
@@ -255,5 +265,26 @@ def ground_check(hyps, goal, roles, timeout_ms=20000, rounds=2, max_terms=14,
         asserted = []
         for b in new_asserts:
             add(b)
-    r = s.check()
-    return r, s, {'instances': n_inst, 'terms': {k: len(v) for k, v in found.items()}}
+    stats = {'instances': n_inst, 'terms': {k: len(v) for k, v in found.items()}}
+    # portfolio: z3 is unstable on these QF_AUFLIA queries (the same query is 0.5 s with one
+    # variable order and > 10 s with another); try several seeds with a share of the budget
+    budget = timeout_ms
+    attempts = [(None, budget // 4), (7, budget // 4), (23, budget // 4), (101, budget // 4)]
+    last = None
+    allasserts = s.assertions()
+    for k, (seed, tmo) in enumerate(attempts):
+        if seed is None:
+            sk = s
+        else:
+            sk = z3.Solver()
+            sk.set('smt.random_seed', seed)
+            sk.set('smt.arith.random_initial_value', True)
+            for a in allasserts:
+                sk.add(a)
+        sk.set('timeout', max(1000, tmo))
+        r = sk.check()
+        last = sk
+        stats['attempts'] = k + 1
+        if r != z3.unknown:
+            return r, sk, stats
+    return z3.unknown, last, stats
